@@ -22,7 +22,9 @@
 (*     DeviationUncheckedKey, under which the property fails already in the model.           *)
 EXTENDS SeqHeaderOps
 
-CONSTANTS MaxRestr     \* 1: one restricted key; 2: all pairs of restricted keys
+CONSTANTS MaxRestr,    \* 1: one restricted key; 2: all pairs of restricted keys
+          Modes,       \* which classes of level definitions are enumerated: subset of {"full", "geom", "real"}
+          Wide         \* FALSE: the listed geometries / three format perturbations; TRUE: the geometry box / all six
 
 VARIABLES stage, ch, out
 vars == <<stage, ch, out>>
@@ -35,10 +37,16 @@ TinyVP(cd, ss) ==
                        !.luma_offset = 0, !.luma_excursion = 255,
                        !.color_diff_offset = 128, !.color_diff_excursion = 255]
 
+(* level = the level the configuration claims (1 = the synthetic level); sb_num / sb_den = picture_bytes / *)
+(* number of slices as a reduced fraction (low delay only; 24/2 = 12/1)                                   *)
+CfgL(level, name, vp, pcm, profile, wi, wiho, dd, ddho, sx, sy, frag, lossless, pb, cqm, sbn, sbd) ==
+  [level |-> level, name |-> name, vp |-> vp, pcm |-> pcm, profile |-> profile, wavelet_index |-> wi,
+   wavelet_index_ho |-> wiho, dwt_depth |-> dd, dwt_depth_ho |-> ddho, slices_x |-> sx, slices_y |-> sy,
+   frag |-> frag, lossless |-> lossless, picture_bytes |-> pb, custom_quant_matrix |-> cqm,
+   sb_num |-> sbn, sb_den |-> sbd]
 Cfg(name, vp, pcm, profile, wi, wiho, dd, ddho, sx, sy, frag, lossless, pb, cqm) ==
-  [name |-> name, vp |-> vp, pcm |-> pcm, profile |-> profile, wavelet_index |-> wi, wavelet_index_ho |-> wiho,
-   dwt_depth |-> dd, dwt_depth_ho |-> ddho, slices_x |-> sx, slices_y |-> sy, frag |-> frag,
-   lossless |-> lossless, picture_bytes |-> pb, custom_quant_matrix |-> cqm]
+  CfgL(1, name, vp, pcm, profile, wi, wiho, dd, ddho, sx, sy, frag, lossless, pb, cqm,
+       IF profile = 0 THEN pb \div (sx * sy) ELSE 0, 1)
 
 Cfgs == << Cfg("hq_lossy",     TinyVP(0, 0), 0, 3, 4, 4, 1, 0, 2, 1, 0, 0, 24, 0),
            Cfg("ld_lossy",     TinyVP(0, 0), 0, 0, 4, 4, 1, 0, 2, 1, 0, 0, 24, 0),
@@ -50,13 +58,122 @@ Cfgs == << Cfg("hq_lossy",     TinyVP(0, 0), 0, 3, 4, 4, 1, 0, 2, 1, 0, 0, 24, 0
 FT(c) == [profile |-> c.profile, wavelet_index |-> c.wavelet_index, dwt_depth |-> c.dwt_depth,
           dwt_depth_ho |-> c.dwt_depth_ho, slices_x |-> c.slices_x, slices_y |-> c.slices_y,
           custom_quant_matrix |-> c.custom_quant_matrix,
-          \* picture_bytes / number of slices as a reduced fraction (24/2 = 12/1)
-          sb_num |-> IF c.profile = 0 THEN c.picture_bytes \div (c.slices_x * c.slices_y) ELSE 0,
-          sb_den |-> 1]
-FeatureValues(c) == CV(1, c.pcm, c.vp, FT(c))     \* the synthetic level is level 1
+          sb_num |-> c.sb_num, sb_den |-> c.sb_den]
+FeatureValues(c) == CV(c.level, c.pcm, c.vp, FT(c))     \* the synthetic level is level 1
 
 (* does the stream carry extended transform parameters / need version 3?  (11.2.2, 12.4.4.1) *)
 NeedsV3(c) == c.frag = 1 \/ c.wavelet_index # c.wavelet_index_ho \/ c.dwt_depth_ho # 0
+
+(* ------------------------------------------------------------- the geometry configurations *)
+(* Class "geom": small pictures whose DC-band dimensions divide by the slice counts differently *)
+(* for frames and for fields (and controls where they do not), under every combination of      *)
+(* picture coding mode and source sampling - in particular the two DISAGREEING combinations    *)
+(* (progressive source coded as fields, interlaced source coded as frames), which no real      *)
+(* level admits together with a restriction of a derived key.  Each is combined with a         *)
+(* synthetic table that pins one DERIVED key (every key of                                     *)
+(* codec_features_to_trivial_level_constraints, plus the scan format keys).                    *)
+GeomVP(w, h, cd, ss) == [TinyVP(cd, ss) EXCEPT !.frame_width = w, !.frame_height = h,
+                                                !.clean_width = w, !.clean_height = h]
+Geom(w, h, cd, profile, dd, ddho, sx, sy) ==
+  [w |-> w, h |-> h, cd |-> cd, profile |-> profile, dd |-> dd, ddho |-> ddho, sx |-> sx, sy |-> sy]
+
+(* frame DC height / field DC height (luma; chroma in brackets) and their divisibility by slices_y:   *)
+GeomList ==
+  { Geom(8, 12, 0, 3, 1, 0, 1, 2),    \* 6 / 3            by 2: frame yes, field no
+    Geom(8, 12, 0, 3, 0, 0, 1, 4),    \* 12 / 6           by 4: frame yes, field no
+    Geom(8, 12, 0, 3, 2, 0, 1, 2),    \* 3 / 2 (padding)  by 2: frame no, field yes
+    Geom(8, 12, 0, 3, 1, 0, 1, 3),    \* 6 / 3            by 3: both (control)
+    Geom(8, 24, 2, 3, 0, 0, 1, 4),    \* 24 (12) / 12 (6) by 4: frame yes, field no (chroma only)
+    Geom(16, 24, 1, 3, 2, 0, 2, 2),   \* 6 / 3            by 2: frame yes, field no; two slices across
+    Geom(16, 12, 0, 3, 1, 1, 2, 2),   \* 6 / 3, asymmetric transform (version 3)
+    Geom(8, 12, 0, 0, 1, 0, 1, 2),    \* low delay: slice_bytes keys are the derived ones
+    Geom(8, 8, 0, 3, 1, 0, 1, 2) }    \* 4 / 2            by 2: both (control)
+GeomBox ==
+  { Geom(8, h, cd, 3, dd, 0, 1, sy) : h \in {8, 12, 24}, cd \in {0, 2}, dd \in {0, 1, 2}, sy \in {1, 2, 3, 4} }
+Geoms == IF Wide THEN GeomList \cup GeomBox ELSE GeomList
+
+GeomCfg(g, pcm, ss) ==
+  LET lossless == IF g.profile = 3 THEN 1 ELSE 0
+      pb == IF g.profile = 3 THEN 0 ELSE 12 * g.sx * g.sy IN
+  Cfg("geom", GeomVP(g.w, g.h, g.cd, ss), pcm, g.profile, 4, 4, g.dd, g.ddho, g.sx, g.sy, 0, lossless, pb, 0)
+
+(* DC-band dimensions of the coded picture (11.6.2, 13.1.2 padding) *)
+DCDims(c, pcm) ==
+  LET vp  == c.vp
+      cw  == IF vp.color_diff_format_index \in {1, 2} THEN vp.frame_width \div 2 ELSE vp.frame_width
+      ch0 == IF vp.color_diff_format_index = 2 THEN vp.frame_height \div 2 ELSE vp.frame_height
+      lh  == IF pcm = 1 THEN vp.frame_height \div 2 ELSE vp.frame_height
+      chh == IF pcm = 1 THEN ch0 \div 2 ELSE ch0
+      sx  == Pow2(c.dwt_depth + c.dwt_depth_ho)
+      sy  == Pow2(c.dwt_depth)
+  IN [lw |-> PadTo(vp.frame_width, sx) \div sx, lh |-> PadTo(lh, sy) \div sy,
+      cw |-> PadTo(cw, sx) \div sx, ch |-> PadTo(chh, sy) \div sy]
+(* a usable geometry: regular format, no empty slices *)
+GeomOK(c) == /\ Regular(c.vp, c.pcm)
+             /\ LET d == DCDims(c, c.pcm) IN
+                c.slices_x <= d.lw /\ c.slices_x <= d.cw /\ c.slices_y <= d.lh /\ c.slices_y <= d.ch
+GeomCfgs == {c \in {GeomCfg(g, pcm, ss) : g \in Geoms, pcm \in {0, 1}, ss \in {0, 1}} : GeomOK(c)}
+(* does the derived value slices_have_same_dimensions depend on the coding mode for this geometry? *)
+ModeSensitive(c) == SameSliceDims(c.vp, 0, FT(c)) # SameSliceDims(c.vp, 1, FT(c))
+
+(* ------------------------------------------------- the real level table and formats near it *)
+(* Class "real": the REAL level table (all its columns, as generated from the tree under test)  *)
+(* with one feature set per level (the smallest values its columns allow, as C15 does) and      *)
+(* every base video format x source sampling x picture coding mode x a perturbation of one      *)
+(* group - WITHOUT asking whether the level admits the format: for most it does not, and the    *)
+(* encoder must then refuse (unsat) rather than emit a header assembled from different columns. *)
+(* The sequence has no pictures (the formats are large): sequence_header end_of_sequence.       *)
+(* Levels whose ordering restriction demands a picture after every sequence header cannot       *)
+(* produce such a sequence at all and are left out (a bound, stated in the evidence).           *)
+PictureAfterEveryHeader == {64, 65, 66}      \* LEVEL_SEQUENCE_RESTRICTIONS of the real table (ST 2042-2)
+Pick(s, d) == IF s.any THEN d ELSE MinOf({r[1] : r \in s.rs})
+UsableColumn(c) == ~c.level.any /\ (\A key \in {"level", "profile", "wavelet_index", "dwt_depth", "slices_x", "slices_y"} :
+                                      c[key].any \/ c[key].rs # {})
+RealFeat(c) ==
+  LET prof == Pick(c.profile, 3)
+      sx == Pick(c.slices_x, 1)
+      sy == Pick(c.slices_y, 1)
+      n  == Pick(c.slice_bytes_numerator, 4)
+      m  == Pick(c.slice_bytes_denominator, 1)
+      wi == Pick(c.wavelet_index, 0)
+  IN [level |-> Pick(c.level, 0), profile |-> prof, wavelet_index |-> wi, dwt_depth |-> Pick(c.dwt_depth, 0),
+      slices_x |-> sx, slices_y |-> sy,
+      sb_num |-> IF prof = 0 THEN n ELSE 0, sb_den |-> IF prof = 0 THEN m ELSE 1,
+      picture_bytes |-> IF prof = 0 THEN (n * sx * sy) \div m ELSE 0]
+RealFeats == {f \in {RealFeat(LevelColumns[k]) : k \in {j \in 1..Len(LevelColumns) : UsableColumn(LevelColumns[j])}} :
+                f.level \notin PictureAfterEveryHeader}
+
+RealPerts == IF Wide THEN {"none", "height", "rate", "subsampling", "clean", "range"} ELSE {"none", "height", "rate"}
+RealVP(b, ss, pert) ==
+  LET D == [Defaults(b) EXCEPT !.source_sampling = ss]
+      B == Base(b) IN
+  CASE pert = "none"   -> D
+    [] pert = "height" -> [D EXCEPT !.frame_height = @ + 4]
+    [] pert = "rate"   -> LET r == FrameRates[(B.frame_rate_index % Len(FrameRates)) + 1]
+                          IN [D EXCEPT !.frame_rate_numer = r[1], !.frame_rate_denom = r[2]]
+    [] pert = "subsampling" -> [D EXCEPT !.color_diff_format_index = (@ + 1) % 3]
+    [] pert = "clean"  -> [D EXCEPT !.clean_width = @ - 4, !.clean_height = @ - 2, !.left_offset = @ + 2]
+    [] pert = "range"  -> LET r == SignalRanges[(B.signal_range_index % Len(SignalRanges)) + 1]
+                          IN [D EXCEPT !.luma_offset = r[1], !.luma_excursion = r[2],
+                                       !.color_diff_offset = r[3], !.color_diff_excursion = r[4]]
+RealCfg(f, b, ss, pcm, pert) ==
+  CfgL(f.level, "real", RealVP(b, ss, pert), pcm, f.profile, f.wavelet_index, f.wavelet_index, f.dwt_depth, 0,
+       f.slices_x, f.slices_y, 0, IF f.profile = 3 THEN 1 ELSE 0, f.picture_bytes, 0, f.sb_num, f.sb_den)
+
+(* the design under the real table (operators of SeqHeaderOps, as checked by C15 for ADMITTED formats): *)
+(* columns are filtered by the derived values AND the base format under consideration                    *)
+RealCols(c) == MatchingColumns(FeatureValues(c))
+RealDesign(c) ==
+  LET cols == RealCols(c) IN
+  IF \E b \in AllowedBases(cols, c.vp) : Len(HeadersForBase(cols, c.vp, b)) > 0 THEN "produced" ELSE "unsat"
+RealHeaderRec(c, b, e) == [level |-> c.level, profile |-> c.profile, version |-> HeaderVersion(c.profile, e),
+                           b |-> b, e |-> e, pcm |-> c.pcm]
+RealSound(c) ==
+  LET cols == RealCols(c) IN
+  \A b \in AllowedBases(cols, c.vp) :
+    LET hs == HeadersForBase(cols, c.vp, b) IN
+    \A t \in 1..Len(hs) : /\ DecodeHeader(b, hs[t]) = c.vp
+                          /\ LevelAccepts(RealHeaderRec(c, b, hs[t]))
 
 (* --------------------------------------------------------------- keys and restriction kinds *)
 FlagKeys  == {"custom_dimensions_flag", "custom_color_diff_format_flag", "custom_scan_format_flag",
@@ -177,18 +294,30 @@ DeviationUncheckedKey(restr) == \E r \in restr : r.key \in UncheckedKeys
 (* dwt_depth_ho; those values are not checked against the table either                         *)
 
 (* -------------------------------------------------------------------------- choice machine *)
-Done == 5
-Init == stage = 1 /\ ch = [cfg |-> 0, restr |-> {}, pattern |-> "any"] /\ out = <<>>
+(* class "full": the six tiny configurations x every key; "geom": geometry configurations x the derived *)
+(* keys; "real": the real table (no synthetic column; completed in one step)                           *)
+GeomKeys == FeatureKeys \cup {"source_sampling", "custom_scan_format_flag"}
+KeysOf(class) == IF class = "geom" THEN GeomKeys ELSE AllKeys
+ASSUME GeomKeys \subseteq AllKeys
 
-ChooseCfg == /\ stage = 1
-             /\ \E i \in 1..Len(Cfgs) : ch' = [ch EXCEPT !.cfg = i]
+Done == 5
+NoCfg == [name |-> "none"]
+Init == stage = 1 /\ ch = [class |-> "none", cfg |-> NoCfg, restr |-> {}, pattern |-> "any"] /\ out = <<>>
+
+ChooseCfg == /\ stage = 1 /\ "full" \in Modes
+             /\ \E i \in 1..Len(Cfgs) : ch' = [ch EXCEPT !.class = "full", !.cfg = Cfgs[i]]
              /\ stage' = 2 /\ UNCHANGED out
+
+ChooseGeom == /\ stage = 1 /\ "geom" \in Modes
+              /\ \E c \in GeomCfgs : ch' = [ch EXCEPT !.class = "geom", !.cfg = c]
+              /\ stage' = 2 /\ UNCHANGED out
 
 Restriction(i, kind, c) == [key |-> KeySeq[i], kind |-> kind, vs |-> VS(KeySeq[i], kind, c), idx |-> i]
 
 ChooseFirst == /\ stage = 2
                /\ \E i \in 1..Len(KeySeq) : \E kind \in Kinds(KeySeq[i]) :
-                    ch' = [ch EXCEPT !.restr = {Restriction(i, kind, Cfgs[ch.cfg])}]
+                    /\ KeySeq[i] \in KeysOf(ch.class)
+                    /\ ch' = [ch EXCEPT !.restr = {Restriction(i, kind, ch.cfg)}]
                /\ stage' = 3 /\ UNCHANGED out
 
 (* the second restricted key (a different key; unordered pairs are counted once) *)
@@ -197,34 +326,51 @@ ChooseSecond == /\ stage = 3
                    \/ /\ MaxRestr >= 2
                       /\ LET first == CHOOSE r \in ch.restr : TRUE IN
                          \E i \in (first.idx + 1)..Len(KeySeq) : \E kind \in Kinds(KeySeq[i]) :
-                           ch' = [ch EXCEPT !.restr = @ \cup {Restriction(i, kind, Cfgs[ch.cfg])}]
+                           /\ KeySeq[i] \in KeysOf(ch.class)
+                           /\ ch' = [ch EXCEPT !.restr = @ \cup {Restriction(i, kind, ch.cfg)}]
                 /\ stage' = 4 /\ UNCHANGED out
 
 ChoosePattern == /\ stage = 4
                  /\ \E p \in Patterns :
-                      \* ordering patterns are combined with single restrictions only
-                      /\ (p # "any" => Cardinality(ch.restr) = 1)
-                      /\ LET c == Cfgs[ch.cfg]
+                      \* ordering patterns are combined with single restrictions of class "full" only
+                      /\ (p # "any" => Cardinality(ch.restr) = 1 /\ ch.class = "full")
+                      /\ LET c == ch.cfg
                              col == Column(ch.restr) IN
-                         out' = [cfg |-> c, restr |-> ch.restr, pattern |-> p,
+                         out' = [class |-> ch.class, cfg |-> c, restr |-> ch.restr, pattern |-> p, npics |-> 2,
                                  design |-> DesignOutcome(c, col, p),
-                                 deviation |-> DeviationUncheckedKey(ch.restr)]
+                                 deviation |-> DeviationUncheckedKey(ch.restr),
+                                 mode_sensitive |-> ModeSensitive(c)]
                       /\ ch' = [ch EXCEPT !.pattern = p]
                  /\ stage' = Done
 
-Next == ChooseCfg \/ ChooseFirst \/ ChooseSecond \/ ChoosePattern
+(* the real table: level features x base format x source sampling x coding mode x perturbation *)
+ChooseReal == /\ stage = 1 /\ "real" \in Modes
+              /\ \E f \in RealFeats : \E b \in Bases : \E ss \in {0, 1} : \E pcm \in {0, 1} : \E pert \in RealPerts :
+                   LET c == RealCfg(f, b, ss, pcm, pert) IN
+                   /\ Regular(c.vp, pcm)
+                   /\ out' = [class |-> "real", cfg |-> c, restr |-> {}, pattern |-> "real", npics |-> 0,
+                              design |-> RealDesign(c), deviation |-> FALSE, mode_sensitive |-> FALSE,
+                              base |-> b, pert |-> pert]
+                   /\ ch' = [ch EXCEPT !.class = "real", !.cfg = c, !.pattern = "real"]
+              /\ stage' = Done
+
+Next == ChooseCfg \/ ChooseGeom \/ ChooseFirst \/ ChooseSecond \/ ChoosePattern \/ ChooseReal
 Spec == Init /\ [][Next]_vars
 
 (* ------------------------------------------------------------ the theorem TLC checks (C16) *)
 (* on the design: whenever the design produces a sequence, everything the model knows about    *)
 (* the stream is admitted by the table - unless the table restricts a key the design never     *)
 (* consults (the named deviation), or forces an asym flag whose value field is unchecked.       *)
+(* Under the real table: every header of every base format the design may use decodes to the  *)
+(* requested format and is admitted by some column of the level (for admitted AND for          *)
+(* non-admitted formats: the latter have no header at all).                                    *)
 DesignSound ==
   stage = Done =>
     LET c == out.cfg
         col == Column(out.restr) IN
-    out.design \in {"produced", "either"} =>
-      /\ FeaturesMatch(c, col)
-      /\ HeaderAccepted(c, col)
-      /\ (EtpAccepted(c, col) \/ DeviationUncheckedKey(out.restr))
+    IF out.class = "real" THEN RealSound(c)
+    ELSE out.design \in {"produced", "either"} =>
+           /\ FeaturesMatch(c, col)
+           /\ HeaderAccepted(c, col)
+           /\ (EtpAccepted(c, col) \/ DeviationUncheckedKey(out.restr))
 =============================================================================
